@@ -591,7 +591,7 @@ func TestCheck(t *testing.T) {
 			"whether a valid split/merge must be accepted is not judged (only the resulting catalog is)",
 		},
 	}
-	pbt.Add(s, &pbt.Spec[Case]{Name: "history", Gen: gen, Run: run, Quick: 6000, Thorough: 150000, Shards: 8})
+	pbt.Add(s, &pbt.Spec[Case]{Name: "history", Gen: gen, Run: run, Quick: 6000, Thorough: 300000, Shards: 8})
 	if pbt.Tier() == "thorough" || os.Getenv("VERIF_SPEC") == "serverwiring" {
 		pbt.Add(s, &pbt.Spec[Case]{Name: "serverwiring", Gen: genDB, Run: run, Quick: 16, Thorough: 400, Shards: 8})
 	}
